@@ -386,7 +386,7 @@ func c05(c *an.Ctx) {
 		}
 	})
 
-	c.Check("R-GUARD", "Invoke: the size trigger exists whenever it can be closed (both MaxSize tests are MaxSize > 0, the size test compares len(bg.args) with MaxSize for equality); a cancelled leader publishes ctx.Err() as the group's error before closing doneCh", 4, func(o *an.O) {
+	c.Check("R-GUARD", "Invoke: the size trigger exists whenever it can be closed (both MaxSize tests pass every positive MaxSize, the size test compares len(bg.args) with MaxSize for equality); a cancelled leader publishes ctx.Err() as the group's error before closing doneCh", 4, func(o *an.O) {
 		fn := c.NeedFunc(bp, "(*Func).Invoke")
 		// every comparison of f.MaxSize with a constant
 		nConst, nSize := 0, 0
@@ -409,9 +409,31 @@ func c05(c *an.Ctx) {
 					if flipped {
 						op = map[token.Token]token.Token{token.LSS: token.GTR, token.GTR: token.LSS, token.LEQ: token.GEQ, token.GEQ: token.LEQ}[op]
 					}
-					okCmp := (op == token.GTR && n == 0) || (op == token.GEQ && n == 1) || (op == token.NEQ && n == 0)
+					// evaluated, not matched: the test must let every positive MaxSize through (what it says
+					// about MaxSize <= 0 does not matter: len(bg.args) >= 1 never equals such a MaxSize)
+					okCmp := true
+					for _, m := range []int64{1, 2, 3, 1000} {
+						var holds bool
+						switch op {
+						case token.GTR:
+							holds = m > n
+						case token.GEQ:
+							holds = m >= n
+						case token.LSS:
+							holds = m < n
+						case token.LEQ:
+							holds = m <= n
+						case token.NEQ:
+							holds = m != n
+						case token.EQL:
+							holds = m == n
+						}
+						if !holds {
+							okCmp = false
+						}
+					}
 					if !okCmp {
-						o.FailAt(i, "f.MaxSize is tested with %s %d: the channel that signals a full batch must exist exactly when MaxSize > 0 (with MaxSize == 1 the first argument would close a nil channel, or the group would never be closed)", op, n)
+						o.FailAt(i, "f.MaxSize is tested with %s %d, which some positive MaxSize does not pass: the channel that signals a full batch must exist, and be closed, for every MaxSize > 0 (with MaxSize == 1 the first argument would close a nil channel, or the group would never be closed)", op, n)
 					}
 					return
 				}
